@@ -333,8 +333,6 @@ def judge_hs(uid, sc, cls, S, M):
     """the property text evaluated on the implementation's own output; None = satisfied"""
     if cls == "panic":
         return "connect_to_bus panicked"
-    if cls == "hang":
-        return "connect_to_bus did not return within the deadline although the server answered or closed"
     lines = expected_lines(uid, sc.fd)
     prefixes = [b"".join(lines[:i]) for i in range(len(lines) + 1)]
     if sc.xk is None:
@@ -342,6 +340,8 @@ def judge_hs(uid, sc, cls, S, M):
             return "client bytes are not whole lines of NUL, AUTH EXTERNAL <hex uid>, [NEGOTIATE_UNIX_FD], BEGIN in order"
     elif not any(p.startswith(S) for p in prefixes):
         return "client bytes are not a prefix of the expected conversation"
+    if cls == "hang":
+        return "connect_to_bus did not return within the deadline although the server answered or closed"
     l1, l2 = sc.first_lines()
     det = sc.deterministic()
     all_server = b"".join(b"".join(ch) for ch, _ in sc.steps)
